@@ -9,7 +9,7 @@ import umap, umap.umap_ as U
 
 ATOL = 1e-6            # model (binary64) vs implementation (float32 sparse arithmetic)
 OTOL = 1e-5            # oracle tolerance (float32 rounding x10 margin)
-WEIGHTS = (0.0, 0.3, 0.5, 0.9, 1.0)
+WEIGHTS = (0.0, 0.3, 0.5, 0.9, 1.0, 0.95)     # 0.95: exp(-2.5/0.05) ~ 2e-22, tiny but representable in float32
 RULE = ("point clouds (n 20..50, 2..5 dims, blobs, scale 0.1..100, metric euclidean/manhattan/cosine, n_neighbors 3..10) -> unsupervised "
         "graph G of UMAP(n_epochs=0).fit(X); label vectors with 1..6 classes, 0..60% unlabelled (-1), single-class and all-unlabelled "
         "vectors; target_weight in {0,.3,.5,.9,1}.  Implementation: fast_intersection, reset_local_connectivity, "
@@ -70,13 +70,16 @@ def gen_case(rng, npr):
     X = (centers[blob] + npr.normal(size=(n, dim))) * scale
     k = rng.randint(3, 10)
     metric = rng.choice(["euclidean", "euclidean", "manhattan", "cosine"])
-    kind = rng.choice(["classes", "classes", "classes", "classes", "by_blob", "single", "all_unknown"])
+    kind = rng.choice(["classes", "classes", "classes", "classes", "by_blob", "single", "all_unknown", "singletons"])
     if kind == "single":
         y = np.full(n, rng.randint(0, 5), dtype=np.int64)
     elif kind == "all_unknown":
         y = np.full(n, -1, dtype=np.int64)
     elif kind == "by_blob":
         y = blob.astype(np.int64)
+    elif kind == "singletons":      # a few samples carry a label nobody else has: ALL their edges are cross-label edges
+        y = blob.astype(np.int64)
+        for j_, i_ in enumerate(rng.sample(range(n), rng.randint(2, 5))): y[i_] = 100 + j_
     else:
         y = npr.randint(0, rng.randint(1, 6), size=n).astype(np.int64)
     if kind != "all_unknown":
@@ -359,6 +362,10 @@ def run(ctx):
         case = gen_case(rng, npr)
         if c < len(WEIGHTS):
             case["w"] = WEIGHTS[c]                      # every weight at least once
+        elif c < len(WEIGHTS) + 3:                      # singleton classes at weights whose far factor is tiny but not zero
+            case = gen_case(rng, npr)
+            while case["kind"] != "singletons": case = gen_case(rng, npr)
+            case["w"] = (0.95, 0.9, 0.96)[c - len(WEIGHTS)]
         out = run_case(ctx, case, rng, unknown_default)
         if out is not None:
             terms.append(out[0]); cases.append(out[1])
